@@ -180,6 +180,10 @@ func lawsOf(v interface{}, final bool) aLaws {
 			l.Derived = false
 			l.Detail += "; Package().SourceAddr(SubPath()) differs"
 		}
+		if x.SubPath() != "" && !sourceaddrs.ValidSubPath(x.SubPath()) {
+			l.Derived = false
+			l.Detail += "; ValidSubPath rejects the sub-path of an accepted address"
+		}
 	case sourceaddrs.RegistrySource:
 		ver := versions.MustParseVersion("1.2.3-beta.1+build.5")
 		f := x.Versioned(ver)
